@@ -1,0 +1,24 @@
+//go:build verif
+
+package field
+
+// Verification hooks: thin forwarders to unexported helpers, only built
+// with `-tags verif`.  No logic lives here.
+
+// VerifPow3Mod4 forwards to pow3mod4 (`z = x^((p-3)/4)`).
+func (z *Element) VerifPow3Mod4(x *Element) *Element { return z.pow3mod4(x) }
+
+// VerifSetShortBytes forwards to setShortBytes.
+func (fe *Element) VerifSetShortBytes(src []byte) *Element { return fe.setShortBytes(src) }
+
+// VerifReduceSaturated forwards to reduceSaturated.
+func VerifReduceSaturated(dst, src *[4]uint64) uint64 { return reduceSaturated(dst, src) }
+
+// VerifRawLimbs returns the raw (Montgomery domain) limbs of fe.
+func (fe *Element) VerifRawLimbs() [4]uint64 { return [4]uint64(fe.m) }
+
+// VerifSetRawLimbs sets the raw (Montgomery domain) limbs of fe.
+func (fe *Element) VerifSetRawLimbs(l *[4]uint64) *Element {
+	copy(fe.m[:], l[:])
+	return fe
+}
